@@ -6,6 +6,7 @@
 -/
 import SqlizeModel.Proofs.SpecUnchanged
 import SqlizeModel.Proofs.FidelityElems
+import SqlizeModel.Proofs.ExecCreate
 
 namespace Sqlize
 open Spec
@@ -122,32 +123,6 @@ theorem TR.allHasCol {a b : TableSpec} (h : TR a b) (cols : List String) : cols.
   induction cols with
   | nil => rfl
   | cons c r ih => rw [List.all_cons, List.all_cons, h.hasCol c, ih]
-
-/-- the table a CREATE TABLE statement adds, if it is well-formed (everything `exec` checks but the name clash) -/
-def mkTable (t : String) (cols : List ColDef) (pk : List String) : Option TableSpec :=
-  let specs := cols.map colOf
-  let names := specs.map (·.1.name)
-  let inlinePk := (specs.filter (·.2)).map (·.1.name)
-  if !allNodup names then none
-  else if !pk.isEmpty && !inlinePk.isEmpty then none
-  else if inlinePk.length > 1 then none
-  else
-    let pk' := if pk.isEmpty then inlinePk else pk
-    if !(pk'.all names.contains) || !allNodup pk' then none
-    else some { name := t, cols := specs.map (·.1), pk := pk' }
-
-theorem exec_createTable (rc : Bool) (db : DB) (t : String) (i : Nat) (cols : List ColDef) (pk : List String) :
-    exec rc db (.createTable t i cols pk) = if db.has t then none else (mkTable t cols pk).map (fun tb => db ++ [tb]) := by
-  simp only [exec, mkTable]
-  split
-  · rfl
-  · split
-    · rfl
-    · split
-      · rfl
-      · split
-        · rfl
-        · split <;> (split <;> rfl)
 
 /-- **one statement**: from schemas equal up to column order, a statement and the same
     statement without its positional clause succeed together and keep the schemas equal up to column order -/
